@@ -73,3 +73,9 @@ pub use infer_shapes::{
 pub use sym_expr::{EvalError, SymExpr, Symbol, SymbolMap};
 pub use sym_gen::SymbolGen;
 pub use sym_tensor::{Constant, SymTensor};
+
+/// Verification hooks (only compiled with `--cfg rten_verif`): re-exports of
+/// crate-private items so an external harness can call them directly.
+#[cfg(rten_verif)]
+#[doc(hidden)]
+pub mod verif {}
